@@ -3,6 +3,7 @@ package main
 import (
 	"bytes"
 	"fmt"
+	"github.com/hashicorp/raft"
 	"strings"
 	"time"
 
@@ -30,6 +31,35 @@ func execSizesOp(op string) string {
 	ws := strings.Fields(op)
 	if ws[0] == "case" {
 		return "case"
+	}
+	if ws[0] == "walbatch" {
+		// walbatch s1 s2 …: one StoreLogs call through the whole WAL (codec, segment writer, rotation) with entries of these
+		// Data sizes, each within the documented maximum; every entry must be stored and read back identically
+		d := simfs.New()
+		d.Record = false
+		w, err := openWalOn(d, 1<<20, nil)
+		if err != nil {
+			return "open-err"
+		}
+		defer w.Close()
+		var logs []*raft.Log
+		for i, x := range ws[1:] {
+			logs = append(logs, &raft.Log{Index: uint64(i + 1), Term: 1, Type: raft.LogCommand, Data: fillPattern(int(atoiU(x)), byte(i))})
+		}
+		if err := w.StoreLogs(logs); err != nil {
+			return "err"
+		}
+		w.DeleteRange(^uint64(0), ^uint64(0))
+		for _, l := range logs {
+			var back raft.Log
+			if err := w.GetLog(l.Index, &back); err != nil {
+				return fmt.Sprintf("ok unreadable idx=%d (%v)", l.Index, walClass(err))
+			}
+			if !bytes.Equal(back.Data, l.Data) {
+				return fmt.Sprintf("ok corrupted idx=%d", l.Index)
+			}
+		}
+		return "ok readable"
 	}
 	var sizesOfBatch []int
 	segSize, pre := 0, false
@@ -126,6 +156,34 @@ func sizesMonitor(ops, impl []string) []Violation {
 			vs = append(vs, Violation{Property: "C11", What: "segment code panicked on a size boundary", Ops: []string{op}, Impl: []string{out}})
 			vs = append(vs, Violation{Property: "C15", What: "entries of a size within the documented maximum are neither stored nor refused with an error (panic)", Ops: []string{op}, Impl: []string{out}})
 		}
+		if out == "err" {
+			// refused: legitimate only when some entry exceeds the documented maximum
+			ws := strings.Fields(op)
+			var sz []uint64
+			limit := uint64(64 << 20)
+			switch ws[0] {
+			case "walbatch":
+				limit -= 40 // Data size + codec fields
+				for _, x := range ws[1:] {
+					sz = append(sz, atoiU(x))
+				}
+			case "multi":
+				for _, x := range ws[3:] {
+					sz = append(sz, atoiU(x))
+				}
+			case "big":
+				sz = append(sz, atoiU(ws[1]))
+			}
+			within := len(sz) > 0
+			for _, n := range sz {
+				if n > limit {
+					within = false
+				}
+			}
+			if within {
+				vs = append(vs, Violation{Property: "C15", What: "entries each within the documented maximum size are refused", Detail: out, Ops: []string{op}, Impl: []string{out}})
+			}
+		}
 		if strings.HasPrefix(out, "ok ") && !strings.HasPrefix(out, "ok readable") {
 			vs = append(vs, Violation{Property: "C15", What: "an entry the WAL acknowledged cannot be read back identically", Detail: out, Ops: []string{op}, Impl: []string{out}})
 		}
@@ -199,6 +257,10 @@ func suiteSizes(seed uint64, tier string) *Report {
 		c.Ops = append(c.Ops, fmt.Sprintf("multi %d %d %s", MiB, pre, strings.Join(ss, " ")))
 		shapes[fmt.Sprintf("multi/%d/%d/%d", ne, pre, total%8)] = true
 	}
+	// whole-WAL batches whose entries are each within the maximum while their total is not
+	c.Ops = append(c.Ops, fmt.Sprintf("walbatch %d %d %d", 24*MiB, 24*MiB, 24*MiB))
+	c.Ops = append(c.Ops, fmt.Sprintf("walbatch 64 %d", 64*MiB-64))
+	shapes["walbatch"] = true
 	// the boundary itself is always exercised
 	c.Ops = append(c.Ops, fmt.Sprintf("big %d %d 1 2", 64*MiB+1, 4*KiB))
 	c.Impl = execSizes(c.Ops)
